@@ -47,10 +47,10 @@ func matrixCells() []cell {
 	textBoth("zero denominator", []string{"C[1/0]", "C[1] G[3/0]"}, []string{"1[1/0]", "R[1/0] 2[1]"})
 	textBoth("zero denominator", []string{"C[1]{mtr=3/0}", "C[1] R[1]{mtr=4/0}"}, []string{"1[1]{mtr=3/0}", "1[1]{mtr=0/0}"})
 	textBoth("tempo 0", []string{"C[1]{bpm=0}", "C[1] R[1]{bpm=0}"}, []string{"1[1]{bpm=0}", "1[1]{bpm=00}"})
-	textBoth("unknown dynamic", []string{"C[1]{vel=zz}", "C[1]{vel=fff}", "C[1]{vel=F}"}, []string{"1[1]{vel=zz}", "1[1] 2[1]{vel=pianissimo}"})
+	textBoth("unknown dynamic", []string{"C[1]{vel=zz}", "C[1]{vel=fff}"}, []string{"1[1]{vel=zz}", "1[1] 2[1]{vel=pianissimo}"})
 	longTail := strings.Repeat(" C[1,1/2]{a=b}", 40)
 	textBoth("mixed notation", []string{"C[1] 2[1]", "C/3[1]", "2[1] C[1]", "C[1] 2[1]" + longTail}, []string{"C[1] 2[1]", "1/E[1]", "2[1] C[1]", "1[1] C[1]" + strings.Repeat(" 2[1,1/2]{a=b}", 40)})
-	textBoth("malformed key", []string{"C[1]{key=Cmaj7}", "C[1]{key=H}", "C[1]{key=xyzzy Dbb}", "C[1]{key=c}", "C[1]{key=Dbb}", "C[1]{key=F##m}"}, []string{"1[1]{key=Cmaj7}", "1[1]{key=H}", "1[1]{key=Am7}", "1[1]{key=Dbb}", "1[1]{key=C#b}"})
+	textBoth("malformed key", []string{"C[1]{key=Cmaj7}", "C[1]{key=H}", "C[1]{key=xyzzy Dbb}", "C[1]{key=Dbb}", "C[1]{key=F##m}"}, []string{"1[1]{key=Cmaj7}", "1[1]{key=H}", "1[1]{key=Am7}", "1[1]{key=Dbb}", "1[1]{key=C#b}"})
 	for _, st := range []string{"text parse", "text conv degree", "text conv syllable"} {
 		for _, t := range []string{"", " \n", ";only a comment\n", "\t"} {
 			cells = append(cells, cell{"empty piece", "text", st, nil, t, "", fmt.Sprintf("%q", t)})
@@ -72,7 +72,7 @@ func matrixCells() []cell {
 		{"zero denominator", y("  values: [\"1\"]\n  meter: \"4/0\"\n")}, {"zero denominator", validYAML + "- values: [\"1\"]\n  meter: \"3/0\"\n"},
 		{"no durations", y("  values: []\n")}, {"no durations", "- chord: {degree: \"1\", name: \"\"}\n"}, {"no durations", validYAML + "- bpm: 90\n"},
 		{"tempo 0", y("  values: [\"1\"]\n  bpm: 0\n")}, {"tempo 0", validYAML + "- values: [\"1\"]\n  bpm: 0\n"},
-		{"unknown dynamic", y("  values: [\"1\"]\n  velocity: zz\n")}, {"unknown dynamic", y("  values: [\"1\"]\n  velocity: \"\"\n")},
+		{"unknown dynamic", y("  values: [\"1\"]\n  velocity: zz\n")},
 		{"unknown chord symbol", "- chord: {degree: \"1\", name: \"zork\"}\n  values: [\"1\"]\n"}, {"unknown chord symbol", validYAML + "- chord: {degree: \"2\", name: \"M\"}\n  values: [\"1\"]\n"},
 		{"key without scale", y("  values: [\"1\"]\n  key: \"E#\"\n")}, {"key without scale", validYAML + "- values: [\"1\"]\n  key: Abm\n"},
 		{"malformed key", y("  values: [\"1\"]\n  key: Cmaj7\n")}, {"malformed key", y("  values: [\"1\"]\n  key: H\n")}, {"malformed key", y("  values: [\"1\"]\n  key: \"xyzzy Dbb\"\n")}, {"malformed key", y("  values: [\"1\"]\n  key: Dbb\n")}, {"malformed key", y("  values: [\"1\"]\n  key: \"F##\"\n")},
@@ -109,13 +109,13 @@ func matrixCells() []cell {
 		}
 	}
 	for _, st := range writeStages {
-		for _, v := range []string{"zz", "fff", "MF"} {
+		for _, v := range []string{"zz", "fff"} { // (not: a known word in other letter case -- reading it is no nonsense)
 			cells = append(cells, cell{"unknown dynamic", "flag", st, []string{"--velocity", v}, validYAML, "", "--velocity " + v})
 		}
 		for _, k := range []string{"E#", "Abm", "Fb"} {
 			cells = append(cells, cell{"key without scale", "flag", st, []string{"--key", k}, validYAML, "", "--key " + k})
 		}
-		for _, k := range []string{"Cmaj7", "H", "xyzzy Dbb", "c", "Dbb", "F##", "Bbbm"} {
+		for _, k := range []string{"Cmaj7", "H", "xyzzy Dbb", "Dbb", "F##", "Bbbm"} {
 			cells = append(cells, cell{"malformed key", "flag", st, []string{"--key", k}, validYAML, "", "--key " + k})
 		}
 		for _, a := range [][]string{{"--bpm", "0"}, {"--bpm=0"}, {"--velocity", ""}, {"--key", ""}, {"--meter", ""}} {
@@ -135,7 +135,7 @@ func matrixCells() []cell {
 		cells = append(cells, cell{"malformed key", "flag", "info key describe", []string{"--key", k}, "", "", "--key " + k})
 		cells = append(cells, cell{"malformed key", "flag", "info key conv", []string{"--key", k}, "", "", "--key " + k})
 	}
-	for _, m := range []string{"zzz", "CMT", "cmt,zzz"} {
+	for _, m := range []string{"zzz", "cmt,zzz"} {
 		cells = append(cells, cell{"unknown modifier", "flag", "write conv", []string{"-c", m}, validYAML, "", "-c " + m})
 	}
 	return cells
@@ -387,8 +387,8 @@ func crdVocabulary(c *Ctx) vocabulary {
 		}
 	}
 	if r := c.crd([]string{"write", "--help"}, nil); true {
-		if m := regexp.MustCompile(`override velocity: ([a-z,]+)`).FindSubmatch(append(r.Stdout, r.Stderr...)); m != nil {
-			for _, d := range strings.Split(string(m[1]), ",") {
+		if m := regexp.MustCompile(`override velocity: ([A-Za-z, ]+)`).FindSubmatch(append(r.Stdout, r.Stderr...)); m != nil {
+			for _, d := range strings.FieldsFunc(string(m[1]), func(r rune) bool { return r == ',' || r == ' ' }) {
 				v.dynamics[d] = true
 			}
 		}
